@@ -61,12 +61,21 @@ def program(draw, tier):
     depth = draw(st.sampled_from([0, 0, 1, 1, 2, 3 if big else 2]))
     if depth:
         body = []
-        tin = [{"arg": 0}]
+        # the outer input is read actively, passively, or not at all by the inner timer: an outer tick then wakes the
+        # nested node without any inner node being scheduled, while an inner timer is pending
+        how = draw(st.sampled_from(["active", "active", "passive", "unused"]))
+        tin = [{"arg": 0}] if how == "active" else [{"arg": 0, "passive": True}] if how == "passive" else []
         if draw(st.booleans()):
             rel_script = draw(gen.int_script(0, horizon, max_size=4))
             body.append({"id": "is", "op": "src", "schema": "TS[int]", "script": rel_script, "rel": True})
             tin.append("is")
-        body.append(draw(timer("t", tin, horizon, start)))
+        if how != "active" and "is" not in tin:
+            body.append({"id": "is", "op": "src", "schema": "TS[int]", "script": draw(gen.int_script(0, horizon, max_size=4, min_size=1)), "rel": True})
+            tin.append("is")
+        tnode = draw(timer("t", tin, horizon, start))
+        if how == "passive":
+            tnode["valid"] = []      # a passive, possibly still invalid outer input must not gate the timer
+        body.append(tnode)
         subs["g0"] = {"params": ["TS[int]"], "out": "TS[int]", "stmts": body, "ret": "t"}
         for d in range(1, depth):
             subs[f"g{d}"] = {"params": ["TS[int]"], "out": "TS[int]",
